@@ -126,6 +126,9 @@ func (self *Interpreter) listLiteral(node ast.AnalyzedListLiteralExpression) (*v
 		if i != nil {
 			return nil, i
 		}
+		// The list gets a cell of its own: assigning to the element must not overwrite the variable the value came from.
+		valOwned := *val
+		val = &valOwned
 		values = append(values, val)
 	}
 
@@ -151,6 +154,9 @@ func (self *Interpreter) objectLiteral(node ast.AnalyzedObjectLiteralExpression)
 		if i != nil {
 			return nil, i
 		}
+		// The object gets a cell of its own (see list literals).
+		fieldValueOwned := *fieldValue
+		fieldValue = &fieldValueOwned
 		fields[field.Key.Ident()] = fieldValue
 	}
 	return value.NewValueObject(fields), nil
